@@ -157,7 +157,7 @@ class Gen:
         return src, kinds
 
 
-def universe(tier, rng):
+def universe(tier, rng, streams):
     scns = []
 
     def add(src, kinds):
@@ -184,19 +184,20 @@ def universe(tier, rng):
                 s = lay(head, mode) + "\n" + body + (lay(mid, mode) + "\n" + body if mid else "")
                 add(s, {"py"})
                 add(s + "\n\n\n\n" + s, {"py"})
-    # U3: pairs of statements with blank-line runs and comments between
+    # U3: pairs of statements with blank-line runs and comments between; U4: random programs
+    # (both drawn from the fixed random streams)
     pairs = list(itertools.product(["py", "sub", "macro", "comment", "trail"], repeat=2))
-    g = Gen(rng)
-    for a, b in pairs:
-        for blanks in range(0, 4):
-            for _ in range(2 if tier == "quick" else 12):
-                mode = rng.choice(list(GAPS) + ["mixed"])
-                s = g.stmt(a, mode) + "\n" + rng.choice(["", "  ", "\t"]).join(["\n"] * blanks) + g.stmt(b, mode) + "\n"
-                add(s, {a, b})
-    # U4: random programs
-    for _ in range(1500 if tier == "quick" else 40000):
-        src, kinds = g.program()
-        add(src, kinds)
+    for srng in streams:
+        g = Gen(srng)
+        for a, b in pairs:
+            for blanks in range(0, 4):
+                for _ in range(2):
+                    mode = srng.choice(list(GAPS) + ["mixed"])
+                    s = g.stmt(a, mode) + "\n" + srng.choice(["", "  ", "\t"]).join(["\n"] * blanks) + g.stmt(b, mode) + "\n"
+                    add(s, {a, b})
+        for _ in range(1500):
+            src, kinds = g.program()
+            add(src, kinds)
     # U5: CRLF / form feed / no final newline / only blanks
     for t in PY[:12] + SUB[:12]:
         s = lay(t, "one")
@@ -251,7 +252,7 @@ def run(tier, seed, replay=None):
             r = tlc.model_check("FmtState", cfg_text=core.set_deviations(cfg_text, [dev]), expect_ok=False, coverage=False, timeout=600)
             selftest[dev] = r["errors"][:1]
         res.coverage["deviation_selftest"] = selftest
-        scns = universe(tier, rng) + rejected_universe(tier, rng)
+        scns = universe(tier, rng, core.streams(tier, seed)) + rejected_universe(tier, rng)
     out = pool.run("fmt", scns, hooks=False, timeout=3000)
     bad_workers = [t for t in out if "steps" not in t]
     if bad_workers:
